@@ -589,6 +589,57 @@ def run_seg(cfg, counters, violations, samples, distinct):
                 chunks = chunks[:8] + cut(b"".join(chunks[8:14]), [70000, 140001]) + chunks[14:]
             judge(boundary, frames, chunks, "long-lived-connection")
             counters.inc("long_lived_connections")
+    # ---- thousands of complete tiny frames in ONE read (a client that batches its updates; 3000 frames are some 27 KiB)
+    if cfg["shard"] % 3 == 1:
+        for boundary in ("channel", "direct"):
+            frames = [(r.choice(["Text", "Binary"]), ("%d" % k).encode(), r.randbytes(4)) for k in range(3000)]
+            judge(boundary, frames, [b"".join(ref_encode(OPS[op], p, k) for op, p, k in frames)], "thousands-of-frames-in-one-read")
+            counters.inc("reads_with_thousands_of_frames")
+    # ---- a client frame WITHOUT the mask bit in the middle of a stream (a broken or hostile client): whether the library refuses
+    #      it or hands its payload over as it is, the stream stays in step - the frames behind it are delivered once, in order, and
+    #      nothing inside the unmasked payload is taken for a frame
+    for rep in range(4 if cfg["tier"] == "quick" else 40):
+        good = [f for f in gen_frames(r) if not f[1].startswith((b"!raise", b"!close")) and f[0] != "Close"] or [("Binary", b"x", b"abcd")]
+        bad_payload = r.choice([r.randbytes(200), ref_encode(OPS["Text"], b"SMUGGLED", r.randbytes(4)), r.randbytes(126), r.randbytes(70000), b"",
+                                ref_encode(OPS["Binary"], b"SMUGGLED" * 20, b"\x00\x00\x00\x00") * 3])
+        pos = r.randint(0, len(good))
+        pieces = [ref_encode(OPS[op], p_, k_) for op, p_, k_ in good]
+        pieces.insert(pos, ref_encode(OPS["Binary"], bad_payload, None))
+        stream = b"".join(pieces)
+        chunks = [stream] if rep % 2 else cut(stream, sorted(r.sample(range(1, len(stream)), min(len(stream) - 1, 6))))
+        boundary = r.choice(["channel", "direct"])
+        flush = ref_encode(OPS["Ping"], b"flush", b"\x01\x02\x03\x04")
+        errs = []
+        if boundary == "channel":
+            proto, tr, ep = make_channel(holder)
+            sink = proto.dataReceived
+        else:
+            sink, ep = make_direct()
+            ep.events.append((0xFF, None))
+        with contextlib.redirect_stdout(io.StringIO()):
+            for c_ in chunks + [flush, flush]:
+                try:
+                    sink(c_)
+                except Exception as e:
+                    errs.append(e)
+        ev = [e_ for e_ in ep.events if e_ != (OPS["Ping"], b"flush")][1:]
+        if boundary == "channel":
+            close_channel(proto)
+        want_refused = expected_events(good)
+        want_passed = want_refused[:pos] + [(OPS["Binary"], bad_payload)] + want_refused[pos:]
+        counters.inc("streams_with_an_unmasked_frame")
+        if ev == want_refused:
+            counters.inc("unmasked_frame_refused_stream_in_step")
+        elif ev == want_passed:
+            counters.inc("unmasked_frame_passed_stream_in_step")
+        else:
+            smuggled = any(isinstance(p_, (bytes, str)) and "SMUGGLED" in (p_ if isinstance(p_, str) else p_.decode("latin-1")) and (o_, p_) not in want_passed for o_, p_ in ev)
+            mech = "frame-smuggled-inside-unmasked-payload" if smuggled else "stream-out-of-step-after-unmasked-frame"
+            counters.inc("viol:" + mech)
+            if sum(1 for v in violations if v["mechanism"] == mech) < 5:
+                violations.append({"mechanism": mech, "case": {"boundary": boundary, "position": pos, "unmasked_payload_bytes": len(bad_payload), "chunk_lengths": [len(c_) for c_ in chunks]},
+                                   "msg": "[%s] an unmasked %d-byte Binary frame at position %d of %d frames (%d reads): endpoint got %d events %r, expected the %d frames behind and before it; errors %r" % (
+                                       boundary, len(bad_payload), pos, len(good) + 1, len(chunks), len(ev), [(o_, short(p_)) for o_, p_ in ev][:6], len(want_refused), errs[:2])})
     for case in range(cfg["n"]):
         if case % 10 == 0:
             run_concurrent(r, holder, counters, violations)
